@@ -1,7 +1,8 @@
 /*
  * C04-H1: undo/redo histories at the line-buffer interface.
  * K operations, each chosen by the solver from
- *   0 edit as a command of its own, 1 compound command of two edits, 2 undo, 3 redo.
+ *   0 edit as a command of its own, 1 compound command of two edits, 2 undo, 3 redo,
+ *   4 lbuf_saved(clear) as after loading a file, 5 lbuf_saved(keep) as after :w.
  * An edit replaces a solver-chosen range [beg,end) by a solver-chosen text of up to TL bytes over
  * {'a', newline} (or deletes it).  Ghost state: the text after every not-undone command.
  * Oracle: undo yields exactly the text before the most recent not-undone command however many
@@ -22,6 +23,9 @@ struct lbuf *ex_lbuf(void) { return LB; }
 #endif
 #ifndef SMALL
 #define SMALL 0
+#endif
+#ifndef NOPS
+#define NOPS 4	/* 6: also 'history cleared by a load' and 'saved' */
 #endif
 #define SNAP 96
 static char snap[K + 2][SNAP];
@@ -103,7 +107,7 @@ void harness(void)
 	take(snap[0]);
 	for (k = 0; k < K; k++) {
 		int op = symx_u8("op");
-		symx_assume(op < 4);
+		symx_assume(op < NOPS);
 		op = symx_conc(op);
 		if (op <= 1) {
 			int d, m = -1;
@@ -118,6 +122,16 @@ void harness(void)
 			fresh = op == 0 && d >= 0;
 			markpos = d;
 			symx_reach("edit");
+		} else if (op == 4) {
+			/* the buffer was (re)loaded or saved with a cleared history: nothing to undo or redo any more */
+			lbuf_saved(LB, 1);
+			take(snap[0]);
+			u = n = 0;
+			fresh = 0;
+			symx_reach("history-cleared");
+		} else if (op == 5) {
+			lbuf_saved(LB, 0);		/* saved: the history stays */
+			fresh = 0;
 		} else if (op == 2) {
 			int r = lbuf_undo(LB);
 			if (u == 0) {
